@@ -15,7 +15,7 @@ import copy
 from .refnorm import functions_of, local_names, load_inventory, _all_args
 
 _PURE_CALLS = {"len", "isinstance", "int", "str", "float", "bool", "tuple", "frozenset", "type", "abs", "min", "max", "repr"}
-_PURE_METHODS = {"get", "keys", "values", "items", "startswith", "endswith", "lower", "upper", "split", "rsplit", "join", "format"}
+_PURE_METHODS = {"get", "keys", "values", "items", "startswith", "endswith", "lower", "upper", "split", "rsplit", "join", "format", "encode", "decode", "strip", "lstrip", "rstrip", "replace", "hex"}
 
 
 def _immutable_literal(e):
